@@ -7,7 +7,7 @@
    it puts a new element anywhere in the table's enumeration order and may
    reshuffle everything (growth).  "Order irrelevant" = the same result for
    every two valid hashers, i.e. for all enumeration orders. *)
-From Coq Require Import List String Bool Arith Permutation.
+From Coq Require Import List String Bool Arith Permutation Sorted.
 From Typify Require Import Algo.HashOrder Gen.HashSites Proofs.HashOrderProofs.
 Import ListNotations.
 
@@ -205,6 +205,38 @@ Proof.
   exists [((MCrate, "A"%string), [1]); ((MCrate, "A"%string), [2])],
          [((MCrate, "A"%string), [2]); ((MCrate, "A"%string), [1])].
   split; [apply perm_swap|]. vm_compute. discriminate.
+Qed.
+
+(* to_stream iterates id_to_entry (a BTreeMap): the stream is a function of the id -> entry MAP,
+   whatever the history of inserts *)
+Theorem C12_to_stream_insert_history_irrelevant :
+  forall (T : Type) (wrap : omod -> list T -> list T) (pre post : list (okey * list T)) (h h' : list (id_entry T)),
+    Permutation h h' -> NoDup (map fst h) -> to_stream T wrap pre post h = to_stream T wrap pre post h'.
+Proof. exact to_stream_history_irrelevant. Qed.
+
+(* C12_output_sorted needs "same arrival order within each key".  In to_stream that arrival order is
+   a function of the id table's ITERATION order: per key, the error item, then each entry's items
+   under that key in ascending type id, then the shared defaults.  This is exactly the hypothesis a
+   hash-ordered id table (id_to_entry : HashMap) breaks. *)
+Theorem C12_output_same_key_arrival_order_by_id :
+  forall (T : Type) (pre post : list (okey * list T)) (h : list (id_entry T)) (k : okey),
+    let f := fun it : okey * list T => okeyeq k (fst it) in
+    filter f (to_stream_items T pre post (id_table_of T h)) =
+      (filter f pre ++ flat_map (fun e => filter f (snd e)) (id_table_of T h) ++ filter f post)%list
+    /\ StronglySorted (fun a b => Nat.compare (fst a) (fst b) = Lt) (id_table_of T h).
+Proof. exact to_stream_arrival_order. Qed.
+
+(* witness: two entries filing an item under the SAME key (enum `Foo` variant `Bar` and struct
+   `FooBar` both file their default fns under (Defaults, "FooBar")): iterating an enumeration of the
+   table other than the id order renders other bytes *)
+Theorem C12_output_hash_ordered_ids_observable :
+  exists (tbl enum : list (id_entry nat)),
+    Permutation tbl enum /\ tbl = id_table_of nat tbl /\
+    to_stream_enumerated nat (fun _ s => s) [] [] tbl <> to_stream_enumerated nat (fun _ s => s) [] [] enum.
+Proof.
+  exists [(3, [((MCrate, "Foo"), [30]); ((MDefaults, "FooBar"), [31])]); (4, [((MCrate, "FooBar"), [40]); ((MDefaults, "FooBar"), [41])])]%string,
+         [(4, [((MCrate, "FooBar"), [40]); ((MDefaults, "FooBar"), [41])]); (3, [((MCrate, "Foo"), [30]); ((MDefaults, "FooBar"), [31])])]%string.
+  split; [apply perm_swap|]. split; [vm_compute; reflexivity|]. vm_compute. discriminate.
 Qed.
 
 (* rendering twice: in Gallina a function applied to the same state returns the same value; the
